@@ -2,6 +2,12 @@
 import json, os
 HERE = os.path.dirname(os.path.dirname(os.path.abspath(__file__)))
 CLAIMS = {
+ "C06": dict(
+   category="proof",
+   text="A reference interpreter for RV32I and RV64I written in Gallina from the unprivileged ISA manual (all base instruction formats, immediates, loads/stores, branches, *W forms), with theorems about it (sign extension ranges, branch offsets, ADD/SUB inverse, SLT/SLTU are the signed/unsigned orders, x0 never written, load-after-store), and Coq proofs that the carry and overflow formulas of cas/utils.py AddWithCarry / SubWithBorrow are the architectural unsigned carry/borrow and signed overflow for every width. Tie: every RISC-V base instruction form on boundary register/pc/memory states: amoco's mapper state after instruction(mapper) vs the Coq interpreter (vm_compute) and its Python mirror; the live flag helpers vs the Coq formulas; for x86-64, generated encodings (8/16/32/64-bit operands, REX/66/67 prefixes, register and memory forms, immediates) are executed natively on the host CPU by a small trampoline (native/x86run.c) and compared with amoco on registers, memory bytes and the architecturally defined flags. Sixteen genuine defects repaired, three known findings (missing semantics).",
+   design_ref="DESIGN.md §4 C06",
+   note="Partial for x86: the instruction semantics themselves are not modelled in Coq (only the shared flag formulas); native execution is the oracle. Subset and exclusions are listed in the evidence assumptions.",
+   technique="Gallina reference interpreter + Coq proofs of flag formulas + model correspondence + differential testing against native execution"),
  "C08": dict(
    category="proof",
    text="Refinement proof in Coq: the zone algorithms (locate/addtomap/mo.write/setpart/mergeparts/read/restruct/shift/merge) of a Gallina model mirroring system/memory.py refine a last-write-wins byte map for every write history (induction, no bound). The model is tied to /repo on every run by running identical histories on the real MemoryMap and on the model (vm_compute in coqc), comparing per-byte read results and part structure; an independent dict oracle searches for failing inputs.",
